@@ -407,6 +407,34 @@ def h02d_shards(tier):
     return out
 
 
+# ---------------------------------------------------------------- H02g fields wider than 32 bits
+
+T48 = [0, 1, 2**16 - 1, 2**16, 2**31, 2**32 - 1, 2**32, 2**32 + 1, 2**40 + 5, 2**47, 2**48 - 2, 2**48 - 1]
+
+
+def h02g(pick: int, fudge: int, original_id: int) -> bool:
+    """TSIG (the library's only 48-bit field): every boundary value of the time signed survives encode -> decode, with the other
+    integer fields symbolic; the re-encoding is byte-identical."""
+    import dns.rdtypes.ANY.TSIG
+
+    alg = dns.name.Name([b"hmac-sha256", b""])
+    t48 = 0
+    for i in range(len(T48)):  # (one path per pooled value: the time itself stays concrete)
+        if pick == i:
+            t48 = T48[i]
+    rd = dns.rdtypes.ANY.TSIG.TSIG(dns.rdataclass.ANY, dns.rdatatype.TSIG, alg, t48, fudge, b"\x01\x02", original_id, 0, b"")
+    w = rd.to_wire()
+    back = dns.rdata.from_wire(dns.rdataclass.ANY, dns.rdatatype.TSIG, w, 0, len(w))
+    hit("decoded")
+    if back.time_signed != t48 or back.fudge != fudge or back.original_id != original_id:
+        return False
+    return back == rd and back.to_wire() == w
+
+
+def h02g_pre(pick, fudge, original_id):
+    return 0 <= pick < len(T48) and 0 <= fudge <= 65535 and 0 <= original_id <= 65535
+
+
 HARNESSES = [
     Harness("H02a", h02a, h02a_pre, h02a_shards, kind="universal",
             encodes=["dns.rdata.from_wire", "dns.rdata.from_wire_parser", "dns.rdata.get_rdata_class", "dns.rdata.Rdata.to_wire",
@@ -423,6 +451,10 @@ HARNESSES = [
             encodes=["dns.rdtypes.IN.APL.APLItem.to_wire", "dns.rdtypes.IN.APL.APL.from_wire_parser", "dns.rdtypes.IN.APL.APL._to_wire"],
             bound="APL with 1-2 items: family 1/2 (6 pooled addresses each) or an unknown family (6 pooled opaque addresses), negation symbolic, prefix over its whole range",
             stubs=["E1"], outside="more items"),
+    Harness("H02g", h02g, h02g_pre, lambda tier: [{"_timeout": 300, "_path_timeout": 60}], kind="finite selection (time) with universal 16-bit fields",
+            encodes=["dns.rdtypes.ANY.TSIG.TSIG._to_wire", "dns.rdtypes.ANY.TSIG.TSIG.from_wire_parser", "dns.wirebase.Parser.get_uint48"],
+            bound="TSIG time signed from 12 boundary values up to 2^48-1 (a fully symbolic 48-bit split / join makes z3 answer unknown), fudge and original id symbolic",
+            stubs=["E1", "E5"], outside="other time values"),
     Harness("H02f", h02f, h02f_pre, lambda tier: [{"t": int(dns.rdatatype.from_text(n)), "name": n, "_timeout": 600, "_path_timeout": 60} for n in ("NSEC", "NSEC3", "CSYNC")],
             kind="universal", encodes=["dns.rdtypes.util.Bitmap.to_wire", "dns.rdtypes.util.Bitmap.from_wire_parser"],
             bound="1-2 windows with symbolic window numbers (0..255, increasing) and symbolic 1-2 octet bitmaps", stubs=["E1"],
